@@ -29,7 +29,15 @@ MANIFEST = {
             "service, application or file-system step) and no software or scan clock moves however long it stays not ON, while "
             "every statement of pre_timestep runs regardless (counter resets, user-session time-outs); (7) on reaching ON every "
             "linked interface is enabled and RUNNING/PAUSED/STOPPED services and RUNNING/CLOSED applications are RUNNING, DISABLED / "
-            "RESTARTING / INSTALLING software is left as it was (exact, service by service). Tie: Gen/Power.lean (enum, defaults, "
+            "RESTARTING / INSTALLING software is left as it was (exact, service by service); (8) ONE composite timing theorem: a timed "
+            "power cycle (shutdown, d_s ticks, one tick, any wait, startup, d_u ticks, one tick, arbitrary other requests/frames "
+            "interleaved) visits exactly SHUTTING_DOWN, OFF, BOOTING, ON with four assignments and the exact tick numbers, and reset = "
+            "the same with the automatic start; (9) startup is accepted iff the node is OFF (validators translated by meaning); "
+            "(10) the direct API: the exact transition table of power_on/power_off/reset from every state and the exact condition "
+            "under which a direct call leaves the state machine; (11) a frame reaches a node's receive_frame / session manager / "
+            "software manager / software receive only through an interface's hand-over under `if self.enabled` (cut theorem over the "
+            "regenerated table of all hand-over calls), hence a non-ON node processes no traffic; (12) user-session time-outs are a "
+            "function of the sessions and the time alone (modelled; agrees with C16's model; logins refused while not ON). Tie: Gen/Power.lean (enum, defaults, "
             "statement shape of the power methods, guarded statement lists of apply_timestep and pre_timestep, interface guards and "
             "every enable/disable definition, validators, route tables per class, inventories of every class below Node and "
             "NetworkInterface, the power-relevant statements of constructors/loader/set-up, every power_on/power_off call site, "
@@ -51,7 +59,7 @@ MANIFEST = {
                  "power model; model tied by regenerated tables/shapes/inventories and a differential rig",
     "design_ref": "5/C12",
 }
-MODULES = ["PrimaiteModel.Props.C12", "PrimaiteModel.Props.C12Deep"]
+MODULES = ["PrimaiteModel.Props.C12", "PrimaiteModel.Props.C12Deep", "PrimaiteModel.Props.C12Cycle"]
 EXE = "drv_c12"
 TAIL = [{"op": "tick"}, {"op": "ping", "src": 1, "dst": 0}, {"op": "tick"}, {"op": "tick"}, {"op": "tick"}, {"op": "tick"},
         {"op": "ping", "src": 1, "dst": 0}, {"op": "ping", "src": 0, "dst": 1}]
@@ -77,7 +85,7 @@ def _diff_sig(case: dict, lines: List[str], impl: List[str], model: List[str], i
     w = lines[i].split() if 0 <= i < len(lines) else ["?"]
     op = w[0] + (":" + w[2] if w[0] == "req" and len(w) > 2 else "")
     cls = "?"
-    if w[0] in ("req", "tick", "in", "api", "setdur", "setup") and len(w) > 1 and w[1].isdigit():
+    if w[0] in ("req", "tick", "in", "api", "setdur", "setup", "login", "sesscfg") and len(w) > 1 and w[1].isdigit():
         cls = case["nodes"][int(w[1])]["cls"]
     elif w[0] == "load" and len(w) > 1:
         cls = w[1]
@@ -258,6 +266,8 @@ def run(ctx: Ctx):
                 ctx.count(f"work:{'ON' if st_after == 'ON' else 'not-ON'}:{work_tags or 'none'}")
             elif w[0] in ("ping", "in", "pingpath"):
                 ctx.count(f"{w[0]}:{m}")
+            elif w[0] == "login":
+                ctx.count(f"login:{w[3]}:{m.split()[0]}")
             elif w[0] == "api":
                 ctx.count(f"api:{w[2]}")
                 if " h=- " not in m:
